@@ -13,6 +13,8 @@ def ops_all():
             continue   # glibc-internal, cannot be probed
         ops.append("name %d" % n)
         ops.append("emu %d normal" % n)
+        if 1 <= n <= 64:
+            ops.append("emu %d pending" % n)     # another signal blocked and pending meanwhile
         if n not in (9, 19):
             if 1 <= n <= 64:   # a handler context exists only for numbers the OS accepts
                 ops.append("emu %d handler" % n)
